@@ -248,7 +248,7 @@ func (g *G) respDirectives(p *Profile) []directive {
 	}
 	if g.chance(p.PNoCache) {
 		if g.chance(0.4) {
-			ds = append(ds, directive{"no-cache", `"X-Secret"`, true})
+			ds = append(ds, directive{"no-cache", g.pick(`"X-Secret"`, `"X-Secret"`, `"ETag"`, `"ETag, Last-Modified"`, `"Set-Cookie"`), true})
 		} else {
 			ds = append(ds, directive{"no-cache", "", false})
 		}
@@ -299,6 +299,18 @@ func (g *G) reqDirectives(p *Profile) []directive {
 	default:
 		ds = append(ds, directive{"max-age", g.num(p), true}, directive{"max-stale", g.num(p), true})
 	}
+	// combinations: a freshness demand together with another (each alone takes a different early exit)
+	if g.chance(0.2) {
+		has := map[string]bool{}
+		for _, d := range ds {
+			has[d.name] = true
+		}
+		for _, n := range []string{"max-age", "min-fresh", "max-stale", "stale-if-error"} {
+			if !has[n] && g.chance(0.35) {
+				ds = append(ds, directive{n, g.num(p), true})
+			}
+		}
+	}
 	if g.chance(p.POnlyIfCached) {
 		ds = append(ds, directive{"only-if-cached", "", false})
 	}
@@ -341,6 +353,11 @@ func (g *G) selectingHeaders() []Hdr {
 	}
 	if g.chance(0.15) {
 		hs = append(hs, Hdr{"User-Agent", []string{g.pick("Agent/1", "agent/1", "Other")}})
+	}
+	// a selecting field sent on several field lines
+	if len(hs) > 0 && g.chance(0.12) {
+		i := g.intn(len(hs))
+		hs[i].Vals = append(hs[i].Vals, g.pick("br", "b", "fr", "x", hs[i].Vals[0]))
 	}
 	return hs
 }
@@ -441,7 +458,14 @@ func (g *G) genRep(p *Profile, idx int, approx time.Time, conditional bool) Rep 
 		}
 	}
 	if g.chance(p.PLocation) {
-		add(g.pick("Location", "Content-Location"), g.pick("/x", "/y", "http://a.test/y", "http://b.test/x", "http://A.test:80/x", "y", "../y"))
+		locs := []string{"/x", "/y", "http://a.test/y", "http://b.test/x", "http://A.test:80/x", "y", "../y", "//b.test/y"}
+		if g.chance(0.3) {
+			// both fields, e.g. a cross-origin Location and a same-origin Content-Location
+			add("Location", locs[g.intn(len(locs))])
+			add("Content-Location", locs[g.intn(len(locs))])
+		} else {
+			add(g.pick("Location", "Content-Location"), locs[g.intn(len(locs))])
+		}
 	}
 	return Rep{Status: status, BodyOK: !g.chance(p.PBodyFail), Hdrs: hs}
 }
@@ -457,6 +481,7 @@ var nearMisses = []string{
 	"http://a.test/X", "http://a.test/x/", "http://a.test/x?q=1", "http://a.test/x?q=2", "http://a.test/%E9",
 	"http://a.test/%C3%A9", "http://a.test/x%2Fy", "http://a.test/x/y",
 	// empty segments and dot-segments at the root: "/..//x" is "//x", not "/x" (RFC 3986 §5.2.4)
+	"http://a.test/x%3Fq=1", "http://a.test/x%2541", "http://a.test/xA", "http://a.test/y/%252E%252E/x",
 	"http://a.test//x", "http://a.test/..//x", "http://a.test/.//x", "http://a.test///x", "http://a.test/x/..//x", "http://a.test/x//",
 }
 
@@ -603,7 +628,8 @@ func init() {
 	profiles["conc"] = derive("conc", func(p *Profile) {
 		p.NReq = [2]int{5, 10}
 		p.PValidators, p.PSWR, p.PVary, p.URLs, p.PUnsafe = 0.9, 0.5, 0.35, 2, 0.12
-		p.PErrReply, p.PLocation, p.PRange, p.PReqCC, p.PSpelling = 0.05, 0.0, 0.0, 0.15, 0.3
+		p.PErrReply, p.PLocation, p.PRange, p.PReqCC, p.PSpelling = 0.25, 0.0, 0.0, 0.15, 0.3
+		p.PSIE = 0.45
 	})
 	profiles["hit"] = derive("hit", func(p *Profile) {
 		p.NReq = [2]int{3, 7}
@@ -623,7 +649,7 @@ func init() {
 	})
 	profiles["urls"] = derive("urls", func(p *Profile) {
 		p.NReq = [2]int{5, 10}
-		p.URLs, p.PSpelling, p.PVary, p.PUnsafe, p.PReqCC = 25, 0.5, 0.0, 0.0, 0.0
+		p.URLs, p.PSpelling, p.PVary, p.PUnsafe, p.PReqCC = 29, 0.5, 0.0, 0.0, 0.0
 		p.PNoCache, p.PMustReval, p.PSWR, p.PSIE, p.PErrReply, p.PHeuristic = 0, 0, 0, 0, 0, 0
 		p.PLocation, p.PConnHdr, p.PRange, p.PDate, p.PAge = 0, 0, 0, 0, 0
 		p.Statuses = []int{200}
